@@ -168,6 +168,20 @@ CHECKS["C15"] = dict(
     technique="Lean 4 per-event theorems + non-interference over a handshake model + differential correspondence with real Proxy.Connect (several connections per process) under synctest virtual time",
     design="5/C15", engine="proxy")
 
+CHECKS["C05"] = dict(
+    text="Kernel-checked theorems that a message which passes the shape validation (tables *regenerated* from validate.go: "
+         "minimum parameter count, hex widths, notify slot kinds; the parameter index of every getter; which types have pointer "
+         "params and which Validate refuses nil) cannot make a consumer fault: every getter reads an existing parameter; the "
+         "fixed-width slices of the duplicate key are in range; the header assembly of the operation-by-operation ValidateDiffFloat "
+         "model (parameter indices, 4-byte word swap, 32-bit reads of version / bits / mask) succeeds for every hash function; the "
+         "set_extranonce / subscribe-result type assertions hold; and only validated messages leave the (modelled) parser. Every "
+         "hostile line runs through the real parser (verdict recomputed from its JSON shape by Model/Parse.lean) and, in six phases "
+         "(first line, mid-handshake from miner / pool, mining from miner / active pool / parked pool), through a real Proxy beside a "
+         "second connection: a panic anywhere kills the process and is the violation. Partial: process liveness is observed, not "
+         "proved; runtime faults outside the modelled code (unbounded line length) are not exhibited.",
+    technique="Lean 4 proofs over Go->Lean regenerated validation tables + C01's operation-level model (no fault under the guards) + exhaustive hostile-line enumeration through the real parser and real sessions with crash detection",
+    design="5/C05", engine="proxy")
+
 NOT_YET = {}
 
 ALL = ["C%02d" % i for i in range(1, 21)]
